@@ -18,6 +18,7 @@ func newBuilder(seed int64, salt int64) *scenBuilder {
 	b.sc.Mode = []string{"ct", "ct", "cash", "mtt"}[r.Intn(4)]
 	b.sc.ActionTime = []int{0, 7, 30}[r.Intn(3)]
 	b.sc.Blind = []int64{1, 0, 0, 1, 2}
+	b.sc.MinChip = []int64{1, 1, 5, 10}[r.Intn(4)]
 	return b
 }
 func (b *scenBuilder) newID() string {
@@ -34,7 +35,7 @@ func (b *scenBuilder) anyID() string {
 }
 func (b *scenBuilder) add(o Op)          { b.sc.Steps = append(b.sc.Steps, Step{Op: &o}) }
 func (b *scenBuilder) hand(h *HandPlan)  { b.sc.Steps = append(b.sc.Steps, Step{Hand: h}) }
-func (b *scenBuilder) chips() int64      { return []int64{1, 2, 3, 5, 8, 13, 21, 40}[b.r.Intn(8)] }
+func (b *scenBuilder) chips() int64      { return []int64{0, 1, 2, 3, 5, 8, 13, 21, 40, 7}[b.r.Intn(10)] }
 func (b *scenBuilder) seatPlayers(k int) {
 	perm := b.r.Perm(b.sc.N)
 	for i := 0; i < k && i < b.sc.N; i++ {
